@@ -18,7 +18,10 @@ U16(x) == <<Byte(x, 0), Byte(x, 1)>>
 I32(x) == IF x >= 0 THEN <<Byte(x, 0), Byte(x, 1), Byte(x, 2), Byte(x, 3)>>
           ELSE LET y == -x - 1 IN <<255 - Byte(y, 0), 255 - Byte(y, 1), 255 - Byte(y, 2), 255 - Byte(y, 3)>>
 RECURSIVE CigarBytes(_)
-CigarBytes(c) == IF c = <<>> THEN <<>> ELSE I32(c[1][2] * 16 + c[1][1]) \o CigarBytes(Tail(c))
+\* one CIGAR operation is the 32-bit word len * 16 + op with len < 2^28; it is written byte by byte so that a length above 2^27 (whose
+\* word has the top bit set) never leaves TLC's 32-bit integers
+CigarWord(op, len) == <<(len % 16) * 16 + op, Byte(len \div 16, 0), Byte(len \div 16, 1), Byte(len \div 16, 2)>>
+CigarBytes(c) == IF c = <<>> THEN <<>> ELSE CigarWord(c[1][1], c[1][2]) \o CigarBytes(Tail(c))
 RECURSIVE PackSeq(_)
 PackSeq(s) == IF s = <<>> THEN <<>>
               ELSE IF Len(s) = 1 THEN <<s[1] * 16>>
@@ -47,7 +50,8 @@ Decode(b, o) ==      \* record starting at byte offset o
       endR  == o + 4 + size
   IN [ref  |-> RdI32(b, o + 4), pos |-> RdI32(b, o + 8), mapq |-> b[o + 14], flag |-> RdU16(b, o + 18),
       name |-> SubSeq(b, nameS + 1, cigS - 1),
-      cigar |-> [k \in 1..ncig |-> LET w == RdI32(b, cigS + 4 * (k - 1)) IN <<w % 16, w \div 16>>],
+      cigar |-> [k \in 1..ncig |-> LET q == cigS + 4 * (k - 1) IN
+                                    <<b[q + 1] % 16, b[q + 1] \div 16 + 16 * (b[q + 2] + 256 * b[q + 3] + 65536 * b[q + 4])>>],
       seq  |-> [k \in 1..lseq |-> LET byte == b[seqS + 1 + (k - 1) \div 2] IN IF k % 2 = 1 THEN byte \div 16 ELSE byte % 16],
       qual |-> SubSeq(b, qualS + 1, qualS + lseq),
       tags |-> SubSeq(b, tagS + 1, endR)]
